@@ -71,6 +71,11 @@ def recognise_constant(x):
         q = Fraction(x / val).limit_denominator(5000)
         if q != 0 and abs(float(q) * val - x) <= 2 * _ulp(x):
             return P.Rat(sym.scale(q)), "%s*%s" % (q, nm)
+    # a decimal literal: the shortest round-trip decimal, when it is short
+    rs = repr(x)
+    digits = rs.replace("-", "").replace(".", "").split("e")[0].lstrip("0")
+    if len(digits) <= 12:
+        return P.Rat(P.Poly.const(Fraction(rs))), "decimal(%s)" % rs
     return P.Rat(P.Poly.const(Fraction(x))), "dyadic(%r)" % x
 
 
